@@ -49,6 +49,20 @@ Theorem exec_refuses :
     (forall n : native, In n exec_guarded -> exec_guard c n = DeniedE).
 Proof. intros c H. split; [apply exec_refuses_lemma; exact H | intros n Hn; apply exec_guarded_denied; assumption]. Qed.
 
+(* THE CAPSTONE over the extracted effect table: for every configuration, every registered native (std
+   module natives and builtins) and every protected effect (fs, net, process) found in its body or in the
+   helpers it calls, the native cannot get as far as that effect when the corresponding capability is off
+   -- it tests the bit at the top of its body, so the route by which it is called (direct, alias, selected
+   symbol, callback, user-module re-export, assembly, bytecode) does not matter *)
+Theorem denied_capability_cannot_be_exercised :
+  forall (c : config) (n : native) (e b : string),
+    bit_of_effect e = Some b -> cap_bit c b = false -> can_perform c n e = false.
+Proof. exact denied_capability_cannot_be_exercised_lemma. Qed.
+
+(* every place in runtime/, driver/, cli/, modules/ that puts a native into a VM is one the model accounts for *)
+Theorem every_registration_site_is_known : unknown_registrations registration_sites = [].
+Proof. exact registration_sites_known. Qed.
+
 (* native modules: a denied capability wins over any allow list ... *)
 Theorem deny_beats_allow_native :
   forall (c : config) (cap : string), In cap (denied c) -> check_native_capability c cap = false.
